@@ -30,3 +30,4 @@ def run(fb, rep, tier, cfg):
     e4.cloner_helpers(fb, rep)
     e4.userdata_clones(fb, rep)
     e4.cloner_heap_pairing(fb, rep)
+    e4.foreign_thread_roots(fb, rep)
